@@ -29,6 +29,10 @@ theorem foldl_go_cons {σ : Type} (step : σ → ScopeEdge → σ) (pre : Path) 
       (scopeTraverse.go pre (i + 1) ks).foldl step ((scopeTraverse (pre ++ [i]) k).foldl step st) := by
   simp [scopeTraverse.go, List.foldl_append]
 
+theorem isNamespaceKnown_top' (s : FStack) (ns : Nat) :
+    s.isNamespaceKnown ns = FStack.isNamespaceKnown [s.top] ns := by
+  simp [FStack.isNamespaceKnown, FStack.top]
+
 /-- The top frame after `push`. -/
 def pushTop (top decls : List (Nat × Nat)) : List (Nat × Nat) :=
   if decls.isEmpty then top else fullnameInfoNew decls top
@@ -104,5 +108,76 @@ end
 theorem namesWritableChain_eq (env : Env) (chain : List Tree) (sub : Tree) :
     namesWritableChain env chain sub = wr env (namespacesInScopeChain chain) sub := by
   simp [namesWritableChain, writable_fold, FStack.new, FStack.top]
+
+/-! ### `unresolved_namespaces` as a recursive function -/
+
+/-- The namespaces one element contributes: of its own name, then of its attribute names, when
+    no prefix at all is bound to them in the top frame (`is_namespace_known`). -/
+def unresolvedOfElement (env : Env) (top : List (Nat × Nat)) (t : Tree) (name : Nat) : List Nat :=
+  (name :: t.attrs.map (·.1)).filterMap fun n =>
+    if !FStack.isNamespaceKnown [top] (env.nsOfName n) then some (env.nsOfName n) else none
+
+def unresolvedRec (env : Env) (top : List (Nat × Nat)) : Tree → List Nat
+  | .node v ks =>
+    match v with
+    | .element name =>
+      unresolvedOfElement env (pushTop top (Tree.node v ks).nsDecls) (.node v ks) name ++
+        unresolvedRecList env (pushTop top (Tree.node v ks).nsDecls) ks
+    | _ => unresolvedRecList env top ks
+where
+  unresolvedRecList (env : Env) (top : List (Nat × Nat)) : List Tree → List Nat
+    | [] => []
+    | k :: ks => unresolvedRec env top k ++ unresolvedRecList env top ks
+
+theorem foldl_push_if {α : Type} (c : α → Bool) (f : α → Nat) (l : List α) : ∀ (out : List Nat),
+    l.foldl (fun out n => if c n then out ++ [f n] else out) out =
+      out ++ l.filterMap (fun n => if c n then some (f n) else none) := by
+  induction l with
+  | nil => intro out; simp
+  | cons a rest ih =>
+    intro out
+    simp only [List.foldl_cons, ih, List.filterMap_cons]
+    cases c a <;> simp
+
+mutual
+theorem unresolved_fold (env : Env) : ∀ (t : Tree) (pre : Path) (st : UnresolvedState),
+    (scopeTraverse pre t).foldl (unresolvedStep env) st =
+      { fs := st.fs, out := st.out ++ unresolvedRec env st.fs.top t }
+  | .node v ks, pre, st => by
+    rw [foldl_scopeTraverse]
+    cases v with
+    | element name =>
+      simp only [Value.isNormal, Value.category, beq_self_eq_true, ↓reduceIte]
+      have hstart : unresolvedStep env st (.start pre (.node (.element name) ks)) =
+          { fs := st.fs.push (Tree.node (.element name) ks).nsDecls,
+            out := st.out ++ unresolvedOfElement env
+              (pushTop st.fs.top (Tree.node (.element name) ks).nsDecls) (.node (.element name) ks) name } := by
+        simp only [unresolvedStep, Tree.value, unresolvedOfElement, List.filterMap_cons,
+          isNamespaceKnown_top' (st.fs.push _), FStack.top_push]
+        rw [foldl_push_if (fun n => !FStack.isNamespaceKnown
+          [pushTop st.fs.top (Tree.node (.element name) ks).nsDecls] (env.nsOfName n)) (fun n => env.nsOfName n)]
+        split <;> simp
+      rw [hstart, unresolved_fold_list env ks pre 0]
+      simp only [unresolvedStep, Tree.value, Value.isElement, ↓reduceIte, hasNamespaceDeclarations,
+        FStack.pop_push, FStack.top_push, unresolvedRec, List.append_assoc]
+    | document => simpa [Value.isNormal, Value.category, unresolvedStep, Tree.value, Value.isElement, unresolvedRec] using unresolved_fold_list env ks pre 0 st
+    | text s => simpa [Value.isNormal, Value.category, unresolvedStep, Tree.value, Value.isElement, unresolvedRec] using unresolved_fold_list env ks pre 0 st
+    | pi a b => simpa [Value.isNormal, Value.category, unresolvedStep, Tree.value, Value.isElement, unresolvedRec] using unresolved_fold_list env ks pre 0 st
+    | comment s => simpa [Value.isNormal, Value.category, unresolvedStep, Tree.value, Value.isElement, unresolvedRec] using unresolved_fold_list env ks pre 0 st
+    | «attribute» a b => simpa [Value.isNormal, Value.category, unresolvedRec] using unresolved_fold_list env ks pre 0 st
+    | «namespace» a b => simpa [Value.isNormal, Value.category, unresolvedRec] using unresolved_fold_list env ks pre 0 st
+theorem unresolved_fold_list (env : Env) : ∀ (ks : List Tree) (pre : Path) (i : Nat) (st : UnresolvedState),
+    (scopeTraverse.go pre i ks).foldl (unresolvedStep env) st =
+      { fs := st.fs, out := st.out ++ unresolvedRec.unresolvedRecList env st.fs.top ks }
+  | [], pre, i, st => by simp [foldl_go_nil, unresolvedRec.unresolvedRecList]
+  | k :: ks, pre, i, st => by
+    rw [foldl_go_cons, unresolved_fold env k, unresolved_fold_list env ks]
+    simp [unresolvedRec.unresolvedRecList, List.append_assoc]
+end
+
+/-- `unresolved_namespaces(node)`: the name stack starts EMPTY. -/
+theorem unresolvedNamespacesSub_eq (env : Env) (sub : Tree) :
+    unresolvedNamespacesSub env sub = unresolvedRec env [] sub := by
+  simp [unresolvedNamespacesSub, unresolved_fold, FStack.new, FStack.top]
 
 end XotModel
